@@ -197,12 +197,42 @@ def gen_params():
 
 # ----------------------------------------------------------------------------- index formulas
 
+def balanced(src, i, open_ch="(", close_ch=")"):
+    """index just after the bracket that closes the one at src[i]"""
+    depth = 0
+    for j in range(i, len(src)):
+        if src[j] == open_ch:
+            depth += 1
+        elif src[j] == close_ch:
+            depth -= 1
+            if depth == 0:
+                return j + 1
+    return None
+
+
+def if_conditions(body):
+    """the balanced condition text of every `if (…)` / `if constexpr (…)` in body"""
+    res = []
+    for m in re.finditer(r"\bif\s*(?:constexpr\s*)?\(", body):
+        end = balanced(body, m.end() - 1)
+        if end:
+            res.append(body[m.end():end - 1])
+    return res
+
+
 def body_of(src, header_regex, nth=0):
-    """text of the brace block following the nth match of header_regex"""
+    """text of the brace block following the nth match of header_regex (a header ending in `(` has its
+    parameter list skipped first, so braces in default arguments are not mistaken for the body)"""
     ms = list(re.finditer(header_regex, src))
     if len(ms) <= nth:
         return None
-    i = src.index("{", ms[nth].end())
+    start = ms[nth].end()
+    if src[start - 1] == "(":
+        e = balanced(src, start - 1)
+        if e is None:
+            return None
+        start = e
+    i = src.index("{", start)
     depth = 0
     for j in range(i, len(src)):
         if src[j] == "{":
@@ -521,10 +551,75 @@ def gen_dispatch():
     write_if_changed("tables.json", json.dumps(tables, indent=1, sort_keys=True))
 
 
+# ----------------------------------------------------------------------------- solver control text
+
+def gen_control():
+    """facts of solver.hpp that are text: evaluation period, order of the termination tests, the pass
+    test, the guards and the truncation of the two updates, the order of the three updates in `loop`"""
+    src = strip_comments(read("include/multitensor/solver.hpp"))
+    out = ["/- GENERATED by tools/gen_from_source.py from include/multitensor/solver.hpp — do not edit -/",
+           "namespace MT.Gen", ""]
+    lb = body_of(src, r"termination_reason\s+loop\s*\(")
+    period = None
+    order = None
+    passtest = None
+    steps = None
+    if lb:
+        m = re.search(r"if\s*\(\s*iteration\s*%\s*(\d+)\s*==\s*0\s*\)", lb)
+        period = int(m.group(1)) if m else None
+        tail = lb[lb.index("iteration++"):] if "iteration++" in lb else ""
+        conds = re.findall(r"if\s*\(([^)]*\(\))\s*\)\s*\{\s*return\s+(\w+)\s*;", tail)
+        if conds:
+            order = [(re.sub(r"\s+", "", c), r) for c, r in conds]
+        m = re.search(r"if\s*\((std::abs\(L2_old - L2\)\s*/\s*std::abs\(L2_old\)\s*<\s*\w+)\)", lb)
+        passtest = re.sub(r"\s+", "", m.group(1)) if m else None
+        calls = re.findall(r"(update_vertices<graph::(\w+)>|update_affinity)\s*\(([^;]*)\);", lb)
+        if calls:
+            steps = [((c[1] or "affinity"), re.sub(r"\s+", "", c[2])) for c in calls]
+    if period is None:
+        lost.append(("evalPeriod", "`if (iteration % N == 0)` not found in Solver::loop"))
+    out.append("/-- solver.hpp `loop`: the likelihood is evaluated when `iteration % evalPeriod == 0` -/")
+    out.append("def evalPeriod : Nat := %d\n" % (period if period is not None else 0))
+    if not order:
+        lost.append(("terminationOrder", "termination if-chain not found after `iteration++`"))
+        order = []
+    out.append("/-- solver.hpp `loop`: the termination tests in the order the code makes them -/")
+    out.append("def terminationOrder : List (String × String) := [" +
+               ", ".join('("%s", "%s")' % (c, r) for c, r in order) + "]\n")
+    if passtest is None:
+        lost.append(("passTest", "convergence test not found"))
+    out.append("/-- solver.hpp `loop`: the convergence test (whitespace removed) -/")
+    out.append('def passTest : String := "%s"\n' % (passtest or "?"))
+    if not steps:
+        lost.append(("loopSteps", "update calls not found in Solver::loop"))
+        steps = []
+    out.append("/-- solver.hpp `loop`: the update calls in order (proxy type, arguments) -/")
+    out.append("def loopSteps : List (String × String) := [" +
+               ", ".join('("%s", "%s")' % (a, b) for a, b in steps) + "]\n")
+    # guards and truncation of update_vertices / update_affinity
+    def guards(fn_regex):
+        b = body_of(src, fn_regex)
+        if not b:
+            return None
+        g = [c for c in if_conditions(b) if "EPS_PRECISION" in c]
+        return sorted(set(re.sub(r"\s+", "", x) for x in g))
+    gv = guards(r"void\s+update_vertices\s*\(")
+    gw = guards(r"void\s+update_affinity\s*\(")
+    if gv is None or gw is None:
+        lost.append(("guards", "update_vertices / update_affinity not found"))
+    out.append("/-- solver.hpp `update_vertices`: every comparison against EPS_PRECISION (distinct, sorted) -/")
+    out.append("def vertexGuards : List String := [" + ", ".join('"%s"' % x for x in (gv or [])) + "]\n")
+    out.append("/-- solver.hpp `update_affinity`: every comparison against EPS_PRECISION (distinct, sorted) -/")
+    out.append("def affinityGuards : List String := [" + ", ".join('"%s"' % x for x in (gw or [])) + "]\n")
+    out.append("end MT.Gen\n")
+    write_if_changed("Control.lean", "\n".join(out))
+
+
 def main():
     gen_params()
     gen_index()
     gen_dispatch()
+    gen_control()
     for name, why in lost:
         print(f"LOST-ANCHOR {name}: {why}")
     sys.exit(3 if lost else 0)
